@@ -51,6 +51,19 @@ def firstUnknown (strict : Bool) (md : MsgDesc) (els : List Bytes) : Bool :=
 
 def oneofFree (fs : List Field) : Bool := fs.all (fun f => f.oneof.isNone)
 
+/-- oneof indices from 1000 up denote the synthetic one-member oneofs of proto3 `optional` fields
+    (the driver numbers them so); they have no siblings. -/
+def isSynthetic (f : Field) : Bool :=
+  match f.oneof with
+  | some o => o ≥ 1000
+  | none => false
+
+/-- no field on the path is a member of a real oneof; the leaf may be a proto3 `optional` field -/
+def oneofSafe (fs : List Field) : Bool :=
+  fs.dropLast.all (fun f => f.oneof.isNone) && (match fs.getLast? with
+    | some f => f.oneof.isNone || isSynthetic f
+    | none => true)
+
 /-- the declared text forms (model-exact kinds and the oracle kinds alike) -/
 def specParseLeaf (sch : Schema) (orc : Oracle) (p : Path) (f : Field) (values : List Bytes) : Option (Except Err Msg) :=
   match f.card with
@@ -153,7 +166,7 @@ def expect (sch : Schema) (orc : Oracle) (root : MsgDesc) (bd : Binding) (dec : 
       let ppRes := pps.map (fun kv => (resolveGo sch true root (splitDot kv.1), kv.2))
       if ppRes.any (fun r => match r.1 with
           | none => true
-          | some (_, fs) => !oneofFree fs || (match fs.getLast? with
+          | some (_, fs) => !oneofSafe fs || (match fs.getLast? with
               | some f => !(f.card == Card.single)
               | none => true)) then none
       else
@@ -171,7 +184,7 @@ def expect (sch : Schema) (orc : Oracle) (root : MsgDesc) (bd : Binding) (dec : 
           let qRes := qs.map (fun kv => (resolveGo sch false root (splitDot kv.1), kv.2))
           if qRes.any (fun r => match r.1 with
               | none => true
-              | some (_, fs) => !oneofFree fs) then none
+              | some (_, fs) => !oneofSafe fs) then none
           else
             let qLive := qRes.filter (fun r => match r.1 with
               | some (p, _) => !hasCommonPrefix seqs p
@@ -194,6 +207,20 @@ def expect (sch : Schema) (orc : Oracle) (root : MsgDesc) (bd : Binding) (dec : 
                 | none =>
                   let kept := bodyLeaves.filter (fun e => !(ppSrc.any (fun s => s.at_.isPrefixOf e.1)))
                   some (.ok (kept ++ okLeaves (ppSrc.map (·.result)) ++ okLeaves (qSrc.map (·.result))))
+
+/-- the request binds a proto3 `optional` field by a path variable while the decoded body also sets it -/
+def pathVarOverBodyOptional (sch : Schema) (root : MsgDesc) (bd : Binding) (dec : Dec) (rq : Request) : Bool :=
+  match dec with
+  | .ok es =>
+    let parent : Path := match bodyTarget sch root bd with
+      | .target p => p.dropLast
+      | _ => []
+    rq.pathParams.any (fun kv => match resolveGo sch true root (splitDot kv.1) with
+      | some (p, fs) => (match fs.getLast? with
+          | some f => isSynthetic f
+          | none => false) && es.any (fun e => parent ++ e.1 == p)
+      | none => false)
+  | _ => false
 
 /-- General rule 1 (frame): every populated leaf of the result is accounted for by the body target, a
     path variable or an unfiltered query parameter (none if body = "*"). -/
